@@ -138,7 +138,8 @@ def natToStr (n : Nat) : Str := (toString n).toList.map Char.toNat
 
 /-- the string a dynamic text shows for the value of its signal (the harness closure): empty for multiples
 of four, so that empty dynamic texts — a corner of hydration — occur -/
-def dynTextStr (n : Nat) : Str := if n % 4 = 0 then [] else natToStr n
+def dynTextStr (n : Nat) : Str :=
+  if n % 4 = 0 then [] else if n % 8 = 7 then natToStr n ++ [38, 60] else natToStr n   -- `v&<` for v ≡ 7 (mod 8)
 
 /-- attributes present on the element for the current store -/
 def evalAttrs (σ : Store) : List (Str × AttrV) → List (Str × Str)
